@@ -504,6 +504,15 @@ def type_rows(seed: int) -> list[dict]:
                     observe(tname, T, wfn, rfn, v.replace(tzinfo=None))      # naive
         for v in [0, 1.0, "2024-01-01", None, datetime.date(2024, 1, 1), datetime.timedelta(0)]:
             observe(tname, T, wfn, rfn, v)
+        # wall-clock values at the two ends of the calendar in zones away from UTC, built directly (their
+        # instants lie outside what a UTC datetime can express; cand_abs only subtracts aware values)
+        tzs = [datetime.timezone(datetime.timedelta(hours=h, minutes=m)) for h, m in ((1, 0), (-1, 0), (14, 0), (-12, 0), (0, 1), (0, -1))]
+        for z in tzs:
+            for wall in [datetime.datetime(9999, 12, 31, 23, 30, 0, 123000), datetime.datetime(9999, 12, 31, 23, 59, 59, 999000),
+                         datetime.datetime(9999, 12, 31, 9, 59, 59, 999000), datetime.datetime(9999, 12, 31, 12, 0, 0, 0),
+                         datetime.datetime(9999, 12, 31, 23, 59, 59, 999999),
+                         datetime.datetime(1, 1, 1, 0, 30), datetime.datetime(1, 1, 1, 0, 0), datetime.datetime(1, 1, 2, 0, 0)]:
+                observe(tname, T, wfn, rfn, wall.replace(tzinfo=z))
     return rows
 
 
